@@ -16,6 +16,7 @@ pub mod c13;
 pub mod c14;
 pub mod c15;
 pub mod c16;
+pub mod c17;
 pub mod c18;
 pub mod c19;
 
@@ -37,6 +38,7 @@ pub fn all() -> Vec<Box<dyn Property>> {
         Box::new(c14::C14),
         Box::new(c15::C15),
         Box::new(c16::C16),
+        Box::new(c17::C17),
         Box::new(c18::C18),
         Box::new(c19::C19),
     ]
